@@ -31,9 +31,27 @@ static Item mkitem(Tag tag, std::vector<Vec2> pts) {
     if (!it.pts.empty()) { it.cx /= it.pts.size(); it.cy /= it.pts.size(); }
     return it;
 }
+// Curved outlines: a path with circular bends that is polygonised AFTER being magnified is re-sampled (more points on the larger
+// arc), so its outline equals the magnified leaf outline only up to the arc tolerance.  For the leaf kind with bends the case sets
+// g_curved_tol > 0 and outlines with more than 12 vertices are matched as closed polylines within that distance (both ways).
+static double g_curved_tol = 0;
 // returns "" if equal as multisets (vertex cycles up to start/direction, tol), else a description
 static std::string compare_items(std::vector<Item>& exp, std::vector<Item>& obs, double tol) {
     if (exp.size() != obs.size()) return fmt("expected %zu shapes, got %zu", exp.size(), obs.size());
+    if (g_curved_tol > 0) {
+        std::vector<char> used(obs.size(), 0);
+        for (auto& e : exp) {
+            bool found = false;
+            for (size_t j = 0; j < obs.size() && !found; j++) {
+                if (used[j] || obs[j].tag != e.tag) continue;
+                bool curved = e.pts.size() > 12 || obs[j].pts.size() > 12;
+                if (curved ? same_outline_within(e.pts, obs[j].pts, g_curved_tol) : same_cycle(e.pts, obs[j].pts, tol)) { used[j] = 1; found = true; }
+            }
+            if (!found) return fmt("expected outline tag %u/%u with %zu vertices (first %s) has no returned counterpart within %g", get_layer(e.tag), get_type(e.tag), e.pts.size(), pts_json(e.pts, 4).c_str(), g_curved_tol);
+        }
+        R->count("curved_outline_comparisons");
+        return "";
+    }
     auto key = [](const Item& a, const Item& b) { return a.cx < b.cx; };
     std::sort(exp.begin(), exp.end(), key);
     std::sort(obs.begin(), obs.end(), key);
@@ -212,6 +230,8 @@ static void free_refs(Array<Reference*>& a) {
 
 static void run_case(const CaseId& c) {
     bool ok = true;
+    // arcs are sampled to the path tolerance 1e-2 before or after the magnification: allow 2.5 tolerances times the total magnification
+    g_curved_tol = c.leaf == L_FLEX_BEND ? 2.5e-2 * std::max(1.0, MAGS[c.s1.mag] * MAGS[c.s2.mag]) : 0;
     {   // A. queries on the intact hierarchy
         World w = build(c.leaf, c.s1, c.s2, true, true);
         QCtx xt{&c, "TOP", "intact"}, xm{&c, "MID", "intact"};
@@ -313,7 +333,7 @@ int main(int argc, char** argv) {
         else run_case(c);
         return run.finish();
     }
-    const int leaves[] = {L_SQUARE, L_TRIANGLE, L_LABEL2, L_EMPTY, L_FLEX, L_ROBUST, L_POLY_RECT, L_POLY_REGULAR, L_POLY_EXPLICIT, L_POLY_EXPLICIT_X, L_POLY_EXPLICIT_Y, L_LABEL_EXPLICIT, L_MIXED, L_POLY_REG_1COL, L_LABEL_REG_1ROW};
+    const int leaves[] = {L_SQUARE, L_TRIANGLE, L_LABEL2, L_EMPTY, L_FLEX, L_ROBUST, L_POLY_RECT, L_POLY_REGULAR, L_POLY_EXPLICIT, L_POLY_EXPLICIT_X, L_POLY_EXPLICIT_Y, L_LABEL_EXPLICIT, L_MIXED, L_POLY_REG_1COL, L_LABEL_REG_1ROW, L_FLEX_BEND};
     std::vector<RefSpec> specs;
     for (int rot = 0; rot < NROT; rot++) for (int refl = 0; refl < 2; refl++) for (int mag = 0; mag < 2; mag++) for (int org = 0; org < 2; org++) for (int rep = 0; rep < NREP; rep++) {
         if (!T) {
